@@ -63,6 +63,13 @@ print(json.dumps(out))
 
 
 def run(ctx):
+    # the last shard runs in a process whose integer-string-conversion limit was changed, as programs that handle
+    # big numbers do (0 = no limit, the usual answer to "Exceeds the limit (4300 digits)"): decoding must not care
+    if ctx.nshards > 1 and ctx.shard >= max(1, ctx.nshards - 2) and hasattr(sys, "set_int_max_str_digits"):
+        limit = 0 if ctx.shard == ctx.nshards - 1 else ctx.rng.choice([100000, 640])
+        sys.set_int_max_str_digits(limit)
+        ctx.count("shards_with_changed_int_max_str_digits")
+        ctx.cov["int_max_str_digits"] = limit
     env = kit.Env(ctx)
     m, mdl, pools, rng, orc = env.m, env.mdl, env.pools, ctx.rng, env.orc
     Unit, Prefix, Dimension, Q = m.Unit, m.Prefix, m.Dimension, m.Quantity
